@@ -727,6 +727,12 @@ def _account(stats: Stats, case, r, viols):
         stats.group("probes", "parent_dir_created")
     if viols:
         stats.inc("violating_runs")
+    if len(fired) >= 2 and len(stats.samples.get("faulted_run", [])) < 2:
+        stats.sample("faulted_run", {"scenario": {k: sc.get(k) for k in ("entry", "mode", "initial", "base_hash", "parent_missing", "fmode")},
+                                     "faults_fired": [f"{f['kind'] if f['kind'] != 'errno' else f['errno']}{'*' if f.get('sticky') else ''}"
+                                                      f"@op{f['at']}:{f['op']}" for f in sim.fired],
+                                     "actor_outcomes": outs, "tail_of_event_log": sim.event_log()[-6:],
+                                     "target_after": _n(r["after"].get(r["target_rel"]))}, cap=2)
 
 
 # --------------------------------------------------------------------------- #
@@ -1025,6 +1031,16 @@ COMPONENTS = {
 }
 
 
+def _dedupe(items):
+    seen, out = set(), []
+    for x in items:
+        k = digest(x)
+        if k not in seen:
+            seen.add(k)
+            out.append(x)
+    return out
+
+
 def main(tier: str, seed: int, args) -> int:
     import time
 
@@ -1048,7 +1064,7 @@ def main(tier: str, seed: int, args) -> int:
         "rule": "one evaluation = one simulated execution of the real write path (scenario x fault plan x schedule) judged by "
                 "oracle A1-A5; non-trivial = at least one fault/crash actually fired; distinct = distinct (scenario class, "
                 "fired fault kinds with op class and stickiness, actor outcomes) tuples",
-        "samples": stats.samples.get("sweep_scenario", [])[:2] + stats.samples.get("violation", [])[:1],
+        "samples": _dedupe(stats.samples.get("sweep_scenario", []))[:2] + stats.samples.get("faulted_run", [])[:2],
         "units_done": done, "units_planned": len(us),
         "runs_per_hour": int(runs / wall * 3600) if wall > 0 else 0,
         "yield_points_executed": c.get("yield_points", 0),
